@@ -197,6 +197,9 @@ func runEncoding(e *Enc, fn *ssa.Function, props []string) {
 		t := e.declare("fv."+p.Name(), e.sortOf(p.Type()))
 		f.vals[p] = t
 		f.typeFacts(t, p.Type(), st)
+		if t.Sort == SInt {
+			e.assume(gt(t, intLit(0)), t.S) // the address of a captured variable
+		}
 	}
 	reach := tTrue
 	// implicit precondition: a pointer receiver is not nil
@@ -213,8 +216,17 @@ func runEncoding(e *Enc, fn *ssa.Function, props []string) {
 			env.types[p.Name()] = p.Type()
 		}
 		for _, p := range fn.FreeVars {
-			env.names[p.Name()] = f.vals[p]
-			env.types[p.Name()] = p.Type()
+			// a free variable denotes the captured variable's current content
+			pt, ok := p.Type().Underlying().(*types.Pointer)
+			if !ok {
+				continue
+			}
+			if _, isS := pt.Elem().Underlying().(*types.Struct); isS {
+				env.names[p.Name()] = f.loadStruct(f.vals[p], pt.Elem(), cur)
+			} else {
+				env.names[p.Name()] = f.loadLV(f.lvalOf(p, cur), cur)
+			}
+			env.types[p.Name()] = pt.Elem()
 		}
 		return env
 	}
